@@ -69,11 +69,11 @@ class RealEnv:
             b = b[:-6] + b"9" + b[-5:]            # corrupted near the END (beyond the first read)
         elif klass == 2:
             b = b[: len(b) // 2]
-        return gzip_mod.compress(b) if self.gz and klass != 2 else (gzip_mod.compress(b)[:10] if self.gz else b)
+        return gzip_mod.compress(b, mtime=0) if self.gz and klass != 2 else (gzip_mod.compress(b, mtime=0)[:10] if self.gz else b)
 
     def checksum(self, ds):
         b = good_bytes(ds)
-        return hashlib.sha256(gzip_mod.compress(b) if self.gz else b).hexdigest()
+        return hashlib.sha256(gzip_mod.compress(b, mtime=0) if self.gz else b).hexdigest()
 
     def cache_state(self, p, dataset):
         if not os.path.exists(p):
